@@ -117,7 +117,16 @@ class GzipCompressionHandler(AbstractDataCompressor):
 
     @staticmethod
     def decompress_payload(payload: bytes):
-        return zlib.decompress(payload, 16 + zlib.MAX_WBITS)
+        # a gzip body may consist of several members (RFC 1952, 2.2); zlib.decompress() silently stops after the first
+        # one, also when garbage follows
+        result = b''
+        while payload:
+            decompressor = zlib.decompressobj(16 + zlib.MAX_WBITS)
+            result += decompressor.decompress(payload)
+            if not decompressor.eof:
+                raise zlib.error('incomplete or invalid gzip data')
+            payload = decompressor.unused_data
+        return result
 
 
 CompressionHandler.register_handler(GzipCompressionHandler)
@@ -132,7 +141,15 @@ class Lz4CompressionHandler(AbstractDataCompressor):
 
     @staticmethod
     def decompress_payload(payload: bytes):
-        return lz4.frame.decompress(payload)
+        # frames can be concatenated; data behind a frame that is not another frame is an error, it must not be ignored
+        result = b''
+        while payload:
+            decompressor = lz4.frame.LZ4FrameDecompressor()
+            result += decompressor.decompress(payload)
+            if not decompressor.eof:
+                raise RuntimeError('incomplete lz4 frame')
+            payload = decompressor.unused_data
+        return result
 
 
 if lz4 is not None:
